@@ -80,6 +80,7 @@ type Result struct {
 	Dbg          *DbgAgg  `json:"dbg,omitempty"`
 	Died         string   `json:"died,omitempty"`
 	Timeout      bool     `json:"timeout,omitempty"`
+	Retried      bool     `json:"retried,omitempty"`
 	Cnt1         uint64   `json:"cnt1,omitempty"`
 	Cnt2         uint64   `json:"cnt2,omitempty"`
 	NanoS        int64    `json:"ns,omitempty"`
